@@ -895,6 +895,47 @@ func c06LiveStreams(u *vfUnit) {
 		}
 		c.ReadDir(j("d"))
 		c.ReadDir(j("nope"))
+		// several goroutines on the one connection: payload-carrying requests (two writes on the transport)
+		// beside requests without payload; the stream must still be a sequence of whole frames
+		if cf, err := c.OpenFile(j("d/conc"), os.O_RDWR|os.O_CREATE); err == nil {
+			var wg sync.WaitGroup
+			for g := 0; g < 4; g++ {
+				wg.Add(1)
+				go func(g int) {
+					defer wg.Done()
+					gr := vfNewRand(uint64(u.Index*10 + g))
+					for it := 0; it < 25; it++ {
+						switch (g + it) % 3 {
+						case 0:
+							cf.WriteAt(gr.Bytes(10+gr.Intn(300)), int64(gr.Intn(2000)))
+						case 1:
+							c.Lstat(j("d/f"))
+						default:
+							cf.ReadAt(make([]byte, 1+gr.Intn(200)), int64(gr.Intn(500)))
+						}
+					}
+				}(g)
+			}
+			if w, dump := vfAwait(vfGo(func() { wg.Wait() }), 120*time.Second); w != vfDone {
+				// a torn stream leaves both ends waiting for bytes that never come
+				mu.Lock()
+				nbad := len(bad)
+				first := ""
+				if nbad > 0 {
+					first = bad[0]
+				}
+				mu.Unlock()
+				if w == vfStuck {
+					u.Violation("live-stream-stuck:"+kind.String(), fmt.Sprintf("%v session: concurrent calls never return (%d frames failed the strict decode so far; first: %s)\n%s", kind, nbad, first, vfTrim(dump, 1500)), nil)
+				} else {
+					u.Inconclusive("live stream: wall-clock cap")
+				}
+				sess.cEnd.ForceClose()
+				sess.sEnd.ForceClose()
+				return
+			}
+			cf.Close()
+		}
 		c.Remove(j("d/l"))
 		c.RemoveDirectory(j("d"))
 		c.RemoveAll(j("d"))
